@@ -199,6 +199,12 @@ class Report:
         self.known_findings = json.load(open(kf)) if os.path.exists(kf) else {"open": [], "fixed": []}
 
     # an obligation is one rule instance evaluated on one site
+    def nth(self, key):
+        """Ordinal of this occurrence of `key` (keys carry ordinals, never line numbers)."""
+        self._nth = getattr(self, "_nth", {})
+        self._nth[key] = self._nth.get(key, 0) + 1
+        return f"{key}#{self._nth[key]}"
+
     def ok(self, rule, key, detail="", nontrivial=True):
         self.obligations.append({"rule": rule, "key": key, "ok": True, "detail": detail,
                                  "nontrivial": nontrivial})
